@@ -30,6 +30,7 @@ var funcWhitelist = []fxSpec{
 	{pkg: "internal/lossless", fn: "PrefixEncodeBitsNoLUT", note: "distance > -2^63"},
 	{pkg: "internal/lossless", fn: "PrefixEncodeNoLUT", note: "distance > -2^63"},
 	{pkg: "internal/lossless", recv: "ColorCache", fn: "HashPix"},
+	{pkg: "internal/lossless", recv: "ColorCache", fn: "Lookup"},
 	{pkg: "internal/lossless", fn: "addPixels"},
 	{pkg: "internal/lossless", fn: "average2"},
 	{pkg: "internal/lossless", fn: "selectPredictor"},
@@ -73,6 +74,13 @@ var funcWhitelist = []fxSpec{
 	{pkg: "internal/dsp", fn: "filterLoop24"},
 	{pkg: "internal/dsp", fn: "VFilter16"},
 	{pkg: "internal/dsp", fn: "HFilter16"},
+	{pkg: "internal/dsp", fn: "VFilter8"},
+	{pkg: "internal/dsp", fn: "HFilter8"},
+	{pkg: "internal/dsp", fn: "VFilter16i"},
+	{pkg: "internal/dsp", fn: "HFilter16i"},
+	{pkg: "internal/dsp", fn: "VFilter8i"},
+	{pkg: "internal/dsp", fn: "HFilter8i"},
+	{pkg: "internal/dsp", fn: "SimpleHFilter16i"},
 	{pkg: "internal/dsp", fn: "HasAlpha8b"},
 	{pkg: "internal/dsp", fn: "HasAlpha32b"},
 	{pkg: "internal/dsp", fn: "iTransformOne"},
